@@ -48,62 +48,11 @@ Definition spec_ok (c : case_t) : bool :=
 
 
 def run(ctx):
-    n_async = ctx.budget(28, 500)
-    n_sync = ctx.budget(6, 80)
-    n_exh = ctx.budget(16, 700)
-    corpus = [c["case"] if "case" in c else c for c in ctx.corpus()]
-    cases, exh_total = fakes.make_cases(ctx, n_async, n_sync, n_exh, corpus)
-    obs = fakes.run_batch(cases, nproc=6 if ctx.tier == "thorough" else 4)
-    bad, usable = fakes.evaluate(ctx, "c15", cases, obs, SPEC, "spec_ok")
-    out = Outcome(rule=RULE)
-    seen = set()
-    dist = {"async": 0, "sync": 0, "with_failures": 0, "k_limited": 0, "exhaustive_small": 0, "harness_errors": 0,
-            "jobs_total": 0, "status_ok": 0, "status_error": 0, "multi_completion_steps": 0, "seen_running": 0}
-    for i in usable:
-        c, o = cases[i], obs[i]
-        out.evaluations += 1
-        dist[c["mode"]] += 1
-        dist["with_failures"] += bool(c.get("fail"))
-        dist["k_limited"] += c.get("k") is not None
-        dist["exhaustive_small"] += bool(c.get("exh"))
-        dist["jobs_total"] += sum(fakes.njobs(n) for n in c["nodes"])
-        dist["status_ok" if o["outcome"] == "ok" else "status_error"] += 1
-        dist["multi_completion_steps"] += sum(len(s["done"]) > 1 for s in o.get("steps") or [])
-        dist["seen_running"] += sum(len(s["vis"]) for s in o.get("steps") or [])
-        k = fakes.case_key(c, o)
-        if k not in seen:
-            seen.add(k)
-            out.distinct_nontrivial += fakes.nontrivial(c)
-    dist["harness_errors"] = len(cases) - len(usable)
-    out.traces_validated = len(usable)
-    out.distribution = dist
-    out.samples = [{"case": {k: v for k, v in cases[i].items() if k != "oracle"}, "observed": fakes.slim(obs[i])}
-                   for i in usable[:3]]
-    out.extra = {"exhaustive_space_small_shapes": exh_total}
-    for i, o in enumerate(obs):
-        if i not in usable:
-            out.failures.append(Failure(case=cases[i], observed=o, expected="a run", kind="tie",
-                                        note="the implementation could not be driven (harness error)"))
-    for kind in ("spec", "tie"):
-        for i in bad[kind][:6]:
-            vals = fakes.model_values(ctx, cases[i], obs[i], [
-                "event_log (run_of c)" if cases[i]["mode"] == "async" else "event_log (sync_of c)",
-                "spec_ok c"], SPEC)
-            out.failures.append(Failure(
-                case=cases[i], observed=fakes.slim(obs[i]),
-                expected={"model_event_log": vals[0], "spec_holds_on_observed_log": vals[1]}, kind=kind,
-                note=("a job started before an upstream job succeeded / started twice / was never run" if kind == "spec"
-                      else "Model.Sched run != implementation (polls, launches, log, errors or outputs)")))
+    out, cases, obs, usable, bad = fakes.drive(
+        ctx, "c15", SPEC, ctx.budget(28, 500), ctx.budget(6, 80), ctx.budget(16, 700), RULE,
+        "a job started before an upstream job succeeded / started twice / was never run")
     return out
 
 
 def replay(ctx, payload):
-    case = payload["case"]
-    o = fakes.run_batch([case], nproc=1)[0]
-    print("implementation:", fakes.slim(o))
-    vals = fakes.model_values(ctx, case, o, [
-        "event_log (run_of c)" if case["mode"] == "async" else "event_log (sync_of c)", "spec_ok c",
-        "tie_async c" if case["mode"] == "async" else "tie_sync c"], SPEC)
-    print("model event log:", vals[0])
-    print("spec on observed log:", vals[1])
-    print("model = implementation:", vals[2])
+    fakes.replay_case(ctx, payload, SPEC)
